@@ -46,6 +46,12 @@ def delslice(y, a, b, c):
     del y[a:b:c]
 def delslice2(y, a, b):
     del y[a:b]
+class IX:
+    # an index object: __index__ may give a bool or an int beyond the machine word
+    def __init__(self, v):
+        self.v = v
+    def __index__(self):
+        return self.v
 def gen3():
     yield 81
     yield 82
@@ -103,6 +109,8 @@ func c13Program(tp c13Type, n int, idx []string, thorough bool) string {
 		sb.WriteString("for a in I:\n    for b in I:\n        for c in I:\n            _res.append((1, a, b, c, t(lambda: x[a:b:c])))\n")
 	}
 	sb.WriteString("for a in I:\n    for b in I:\n        _res.append((7, a, b, 0, t(lambda: list(x[a:b]))))\n")
+	// index objects: the value of __index__ is used exactly like the int itself, whatever its representation
+	sb.WriteString("for v in [0, 1, -1, True, False, 2**100, -2**100, 2**63, -2**63 - 1, 'a', 1.0, None]:\n    _res.append((6, 19, 0, 0, (t(lambda: list(x[IX(v):])), t(lambda: list(x[:IX(v)])), t(lambda: list(x[::IX(v)])), t(lambda: x[IX(v)] if not isinstance(x, range) else list(x)[v]))))\n")
 	// operand not corrupted
 	sb.WriteString("_res.append((6, 0, 0, 0, list(x) == list(mk())))\n")
 	// misc operations
